@@ -80,7 +80,7 @@ MANIFEST = {
                    "own output (token spans tile the source, CST text round-trip, own-position lookups, AST spans in bounds)."),
     "level_note": ("Trusted: Coq kernel, translate/gen_grammar.py, the harness. Not modelled: the logos tokenizers (their output is "
                    "checked per input by S), error message texts, rowan. The engine model is hand-written and tied differentially. "
-                   "Known finding: the tokenizer drops a byte after a truncated multi-byte Unicode space (E2 80 / E2 81)."),
+                   "Repaired on this tree (inputs kept in the corpus): the tokenizer dropped a byte after a truncated multi-byte Unicode space (E2 80 / E2 81)."),
     "technique": "Coq proof over an interpreter of the combinator DSL (induction on fuel) + generated grammar + differential correspondence (vm_compute)",
     "design_ref": "DESIGN.md section 4, C10",
 }
